@@ -82,7 +82,9 @@ CLAIMED["C06"] = (
     "layers (I5): the per-block definition vector only grows at its end, one layer per block of each loaded parent "
     "appended to the existing entry; depth starts at 0 and moves +1 only under depth+1<len and -1 after, or is "
     "restored from a checkpoint; block calls and super() (after a successful push) render instructions[depth]; "
-    "super() without a further layer returns Err.  The output of a given chain shape and include/import variable "
+    "super() without a further layer returns Err.  (I6) every re-entry through with_execution_state runs a block "
+    "layer on the caller's block table (Keep) and code of any other template (include, macro body) on a replaced or "
+    "checkpointed one, the replacing table being built from the entered template's own blocks.  The output of a given chain shape and include/import variable "
     "visibility are value-level behaviour that static analysis does not decide; they are NOT claimed.",
     "DESIGN.md §3 C06",
     "Partial claim (error clauses + block layer discipline).  Include recursion accounting is decided under C11.")
@@ -128,15 +130,19 @@ CLAIMED["C08"] = (
     "One known finding (neg of 2^127 keeps the sign positive) is pinned by an existing snapshot and therefore listed, not repaired.")
 
 CLAIMED["C16"] = (
-    "structural output-filter rule over MIR (char match: listed arms cover < > & ' with clean constants, default arm copies) for the HTML-safety clause of tojson; round trip / JSON validity not decided",
-    "Static rule check of ONE clause of the property: tojson's only success value is from_safe_string(buf) where buf "
+    "structural output-filter rule over MIR (char match: listed arms cover < > & ' with clean constants, default arm copies) for the HTML-safety clause of tojson + typestate rule for the re-entrant serialization scope + payload-provenance rules for the scalar arms of the serde bridge; round trip of composite values / JSON validity not decided",
+    "Static rule check of structural clauses of the property: (T1) tojson's only success value is from_safe_string(buf) where buf "
     "is filled exclusively by the per-character match (default arm copies the character; the listed arms cover "
     "< > & ' and push constants free of them), the filtering closure is the last step of the returned Result and "
-    "both formatter branches flow into it.  This decides 'tojson output contains none of < > & '' for every value. "
-    "The serde round trip and 'valid JSON that parses back to an equal value' quantify over runtime values and are "
-    "NOT decided or claimed.",
+    "both formatter branches flow into it.  This decides 'tojson output contains none of < > & '' for every value.  (T2) the "
+    "thread-local scope in which embedded template values round-trip by handle is re-entrant: the site that sets the "
+    "flag captures its previous value into the guard and the guard's drop clears it only as that value dictates.  "
+    "(T3/T4) scalar payloads cross the serde bridge unchanged: serialize_<scalar> builds its variant from the argument "
+    "through widening casts only; each scalar arm of deserialize_any hands exactly its payload to the visitor, text "
+    "and bytes arms call text/bytes visitors.  Round trip of composite values (sequences, maps, structs, enums) and "
+    "'valid JSON that parses back to an equal value' quantify over runtime values and are NOT decided or claimed.",
     "DESIGN.md §3 C16",
-    "Partial claim (HTML-safety of tojson only).  serde_json is trusted to produce the string that is filtered.")
+    "Partial claim (tojson HTML-safety, serialization scope, scalar bridge).  serde_json is trusted to produce the string that is filtered.")
 
 CLAIMED["C02"] = (
     "who-may-write rule for Output + guard classification of every raw write in the escape choke point + reviewed inventory / control-dependence rule for safe-string constructors with a raw-accessor flow lint + byte-set agreement of needs_html_escaping / HtmlEscape",
@@ -214,21 +220,26 @@ CLAIMED["C07"] = (
     "TryFrom / kind computed from their own MIR) decides whether == can hold, whether cmp can reach an unwrap on a "
     "definite None, and which hashing family each variant uses; it requires that equality never crosses kinds (cmp "
     "is kind-first), that possibly-equal variants hash through the same family, that cmp is defined for every pair "
-    "and that comparators handed to sort/min/max are total.  Laws over concrete values within one pair "
+    "and that comparators handed to sort/min/max are total; (V3) an order of two floats by bit pattern (total_cmp / "
+    "to_bits) is only reached on the not-`==` side of a float equality test whose other side returns Equal, so the "
+    "order agrees with == on -0.0/0.0.  Other laws over concrete values within one pair "
     "(transitivity, NaN, 2^53 neighbourhood) and the algebra of sort/unique/groupby/batch/slice/reverse are "
     "value-level and NOT decided or claimed.",
     "DESIGN.md §3 C07",
     "Known findings (true == 1 across kinds and hashes) are listed; host Object::custom_cmp implementations are outside the analysis.")
 
 CLAIMED["C01"] = (
-    "call-graph cycle rule with guard-dominated edges removed (parser recursion) + loop-carried AST wrap detection + intra-procedural taint of template-controlled integers into MIR overflow/zero asserts and allocation sizes + presence of explicit limits",
+    "call-graph cycle rule with guard-dominated edges removed (parser recursion) + loop-carried AST wrap detection + intra-procedural taint of template-controlled integers into MIR overflow/zero asserts and allocation sizes + presence of explicit limits + provenance rule for byte offsets used to slice strings",
     "Static check of the structural clauses of the property only: (P1) every cycle of the recursive-descent parser's "
     "call graph passes a call site dominated by the depth guard; (P2) parser loops that nest the expression built so "
     "far into a new node are bounded by a counter (13 unbounded ones are listed as known findings); (P3) integers "
     "that come from template values reach overflow-capable arithmetic (MIR Assert Overflow/DivisionByZero) and "
     "allocation sizes only through checked/saturating operations, 128-bit arithmetic on widened operands, a "
     "dominating constant bound, or a reviewed entry with its reason; (P6) the explicit limits the property names are "
-    "present and guard what they should.  Interpreter recursion is decided under C11.  These are necessary "
+    "present and guard what they should; (P7) every byte offset used to slice a str (Index<Range>, split_at) is "
+    "derived from the text (search results, lengths, span/cursor offsets) and every literal or quotient component of "
+    "it is covered on all paths by an ASCII/boundary test (starts_with/ends_with/strip_prefix with an ASCII constant, "
+    "is_char_boundary, checked str::get, ASCII needle of find) or a reviewed entry.  Interpreter recursion is decided under C11.  These are necessary "
     "conditions that realistic regressions break (a dropped guard, a new unchecked add, an unbounded capacity); "
     "absence of panics over the whole engine, VM operand-stack discipline and the stack cost of data recursion are "
     "NOT decided.",
